@@ -216,7 +216,7 @@ Record RoundLaws (rt : runtime) (lv : nat -> pv -> bool) : Prop := {
   (* the scalar round trip (C04 owns the scalar text laws; here it is the leaf hypothesis) *)
   leaf_round : forall s v w, lv s v = true -> leaf_m rt s v = Ok w -> leaf_u rt s w = Ok v;
   (* NoneTypeUnmarshaller accepts None *)
-  none_round : none_u rt (none rt) = Ok (none rt)
+  none_round : forall v, is_none_val rt v = true -> none_u rt v = Ok v
 }.
 
 (* marshalling a leaf is injective up to Python == (needed for mapping keys only) *)
